@@ -54,7 +54,16 @@ func (b Binomial) LogProb(x float64) float64 {
 		return math.Inf(-1)
 	}
 	lb := combin.LogGeneralizedBinomial(b.N, x)
-	return lb + x*math.Log(b.P) + (b.N-x)*math.Log(1-b.P)
+	// A vanishing count contributes nothing, also when its probability is
+	// zero (P == 0 or P == 1): avoid 0*log(0).
+	var ls, lf float64
+	if x != 0 {
+		ls = x * math.Log(b.P)
+	}
+	if x != b.N {
+		lf = (b.N - x) * math.Log(1-b.P)
+	}
+	return lb + ls + lf
 }
 
 // Mean returns the mean of the probability distribution.
